@@ -38,6 +38,7 @@ const baseT = int64(1_700_000_000) * 1_000_000_000
 const coldT = baseT - 30*24*3600*1_000_000_000
 const coldWriter = 3
 const killAfterIdle = "kill-after-idle-shard-flush"
+const afterIdleSuffix = "+after-idle-shard-flush"
 
 var clock int64
 
@@ -223,6 +224,14 @@ func (rn *runner) runSchedule(sc schedule, worker int) {
 		}
 		time.Sleep(300 * time.Millisecond)
 	}
+	// both shards of the partition start clean on every replica (memtables flushed): from here
+	// on only the phases of a kill-after-idle-shard-flush fault leave rows of one shard
+	// unflushed while the other shard is flushed
+	for i := 0; i < 3; i++ {
+		if err := cl.StoreCtl(i, "POST", "/verif/flush", ""); err != nil {
+			c.Inconclusive("forced-flush-after-warm-up-failed", 1)
+		}
+	}
 	down := -1
 	var unknownWrites, ackedWrites, failedReads, okReads int64
 	// one concurrent phase: writers and readers run `n` operations each; the master / raft
@@ -378,6 +387,7 @@ func (rn *runner) runSchedule(sc schedule, worker int) {
 	}
 
 	var history [3][]string
+	idleFlushSeen := false
 	for fi, f := range sc.Faults {
 		phase, step = fi+1, stepDuringFault
 		label := fmt.Sprintf("fault%d:%s-%s", fi+1, f.Kind, f.Target)
@@ -504,7 +514,14 @@ func (rn *runner) runSchedule(sc schedule, worker int) {
 				return
 			}
 		}
-		history[victim] = append(history[victim], f.Kind)
+		ev := f.Kind
+		if f.Kind == killAfterIdle {
+			idleFlushSeen = true
+		} else if idleFlushSeen && f.Kind != "pause" {
+			ev += afterIdleSuffix // a kill in a schedule in which only one shard of the partition had been flushed before
+		}
+		history[victim] = append(history[victim], ev)
+		pi.EventOfVictim = ev
 		// the rejoining store must come back (bounded); it catches up in the background
 		back := false
 		for t := 0; t < 240; t++ {
@@ -752,10 +769,12 @@ func compress(kops []op) []map[string]any {
 	return out
 }
 
-func genSchedule(r *rand.Rand, idx, n int, thorough bool) schedule {
+// genSchedule draws n faults; withIdle adds the fault kind that leaves one shard of the
+// partition flushed and the other not (odd schedules of the thorough tier).
+func genSchedule(r *rand.Rand, idx, n int, withIdle bool) schedule {
 	sc := schedule{Index: idx}
 	kinds := []string{"kill", "kill", "pause", "kill-during-flush"}
-	if thorough {
+	if withIdle {
 		kinds = append(kinds, killAfterIdle)
 	}
 	for i := 0; i < n; i++ {
@@ -795,7 +814,7 @@ func main() {
 	sem <- 0
 	sem <- 1
 	for i := 0; i < n; i++ {
-		sc := genSchedule(c.Rand(uint64(500+i)), i, nf, c.Thorough())
+		sc := genSchedule(c.Rand(uint64(500+i)), i, nf, c.Thorough() && i%2 == 1)
 		if i == 0 {
 			// the first schedule always covers: the leader dies inside a flush before the data file
 			// exists; after it rejoined its successor is killed (the rejoined store serves again);
